@@ -292,6 +292,18 @@ func judge(c *vk.Ctx, p *sem.Prepared, rc *ref.Case, contextual []*openfgav1.Tup
 		c.Violation("", "panic|"+ns.name, fmt.Sprintf("%s panicked on %s: %v", api, ns.name, lo.Err), map[string]any{"stack": lo.Panic, "model": p.Ref.DSL()})
 		return
 	}
+	if lo.Hung {
+		// termination is C20 / C21's subject; the listed pipeline teardown deadlock is attributed where its
+		// firing condition holds, any other abandoned request makes the run inconclusive
+		c.Count("answers_abandoned_by_the_watchdog", 1)
+		if strings.HasPrefix(ns.name, "pipeline") && sem.PipelineHangShape(p.Ref, t, rel) {
+			w := sem.Witness(p, ns.name, mode, sem.Request{Object: t, Relation: rel, User: subj, Ctx: rc.Context}, contextual, fmt.Sprint(want), "no answer")
+			c.Violation("C05-pipeline-teardown-deadlock", "hang|pipeline", fmt.Sprintf("%s(%s, %s, %s) on %s did not return within %s", api, t, rel, subj, ns.name, drive.HangAfter), w)
+		} else {
+			sem.Hung(c, ns.name, lo)
+		}
+		return
+	}
 	if lo.Err != nil {
 		c.Count("answers_error", 1)
 		if sem.IsDepthError(lo.Err) || anyE || rc.AnyUnevaluable() {
